@@ -820,10 +820,17 @@ class Controller:
             logger.warning(f'!!! no connection for {sender_address}')
             return
 
-        # Send the data to the host
-        # TODO: should fragment
-        acl_packet = hci.HCI_AclDataPacket(connection.handle, 2, 0, len(data), data)
-        self.send_hci_packet(acl_packet)
+        # Send the data to the host, in as many ACL packets as needed
+        # (data_total_length is a 16-bit field)
+        # TODO: should fragment according to the host's buffer size
+        max_size = 0xFFFF
+        for offset in range(0, len(data), max_size):
+            chunk = data[offset : offset + max_size]
+            self.send_hci_packet(
+                hci.HCI_AclDataPacket(
+                    connection.handle, 2 if offset == 0 else 1, 0, len(chunk), chunk
+                )
+            )
 
     def on_advertising_pdu(self, pdu: ll.AdvInd | ll.AdvExtInd) -> None:
         if isinstance(pdu, ll.AdvExtInd):
